@@ -177,8 +177,16 @@ func (c *Ctx) Case(input string, fn func()) {
 		c.ReplayHit = true
 	}
 	c.Res.Cases++
+	if BeforeCase != nil && c.idx%8 == 0 {
+		BeforeCase(c)
+	}
 	fn()
 }
+
+// BeforeCase, when set, runs before every 8th case: the property packages use it to make
+// unrelated calls into the library (failing ones above all) in between the cases, so that state
+// surviving a call - a pooled buffer, a cache entry, a lazily built table - meets the oracles.
+var BeforeCase func(c *Ctx)
 
 // Index is the index of the current case inside its batch (1-based).
 func (c *Ctx) Index() int { return c.idx }
